@@ -27,6 +27,32 @@ def probeAccept (f : List String) : String :=
     s!"delays={String.intercalate "," (r.delays.map showDelay)};left=0"
   | _ => "DRIVER-BAD-CASE"
 
+/-- `accept2  nA:errA  nB:errB  end1,end2` -/
+def probeAccept2 (f : List String) : String :=
+  match f with
+  | [_, a, b, ends] =>
+    let pr (x : String) : Nat × Bool := match x.splitOn ":" with | [n, e] => (Conv.natOf n, e == "1") | _ => (0, false)
+    let (nA, eA) := pr a
+    let (nB, eB) := pr b
+    let es := (ends.splitOn ",").map parseEnding
+    let r := run2 nA nB eA eB es
+    s!"serveA={r.serveA};serveB={r.serveB};end1={r.ends.getD 0 "-"};end2={r.ends.getD 1 "-"};accepted={r.accepted};open={r.opened};left=0"
+  | _ => "DRIVER-BAD-CASE"
+
+/-- the judge for `accept2` answers: what the property says about Close, stated on the observation alone -/
+def monitorAccept2 (c a : List String) : String :=
+  let ends := ((c.drop 3).headD "").splitOn ","
+  let kv := ((a.headD "").splitOn ";").filterMap fun x => match x.splitOn "=" with | [k, v] => some (k, v) | _ => none
+  let look (k : String) : String := ((kv.find? (·.1 == k)).map (·.2)).getD ""
+  let firstIsClose := ends.head? == some "close"
+  let bad : List String :=
+    (if firstIsClose && look "open" != "0" then ["C20 Server.Close left a connection open"] else []) ++
+    (if firstIsClose && (look "serveA" == "HANG" || look "serveB" == "HANG") then ["C20 Server.Close did not make every Serve return"] else []) ++
+    (if (ends.head? == some "close" || ends.head? == some "shutdown") && (ends.drop 1).head? != some "none" && (ends.drop 1).head? != none &&
+        look "end2" != "closed" then ["C20 a second Close/Shutdown did not report that the server is closed"] else []) ++
+    (if look "left" != "0" then ["C20 goroutines were left behind"] else [])
+  if bad.isEmpty then "ok" else "bad: " ++ String.intercalate "; " bad
+
 /-- `sched CFG BACKEND EVENTS`: the segments in order, everything else ignored -/
 def probeSched (f : List String) : String :=
   match f.take 4 with
